@@ -20,6 +20,7 @@ from typing import Any, Dict, List, Optional, Tuple
 from lib import vlib
 from lib.vlib import cq_bool, cq_list, cq_nat
 from harness import daggen
+from harness import routing
 from harness.universe import Universe, export_plan, table_rows, kf_tfs_partial_requirement, kf_framework_roundtrip, kf_tfs_missing
 from harness.orch import (GateListener, FileListener, run_observed, run_gated, cq_plan, export_adj, install, flight_server, stop_flight_server)
 
@@ -169,6 +170,19 @@ def run(rep: vlib.Reporter, tier: str, seed: int) -> None:
     # conflicts (known-finding domain classifier)
     cf_terms = [f"({cq_plan(r['plan'])}, {cq_foot(r['sync']['foot'])})" for r in recs]
     has_conflict = set(vlib.run_cases("C01", "cf", REQ, "chk_cf", cf_terms, extra_defs=EXTRA, case_type="plan * foot", shard=60)[0])
+    # T2 routing: which object every begun step worked on (Model/Routing.v) = observed footprints (plans without JoinStep)
+    rt_idx = []
+    rt_items = []
+    for i, r in enumerate(recs):
+        t = routing.terms(r["plan"], r["sync"]["begin"], {int(k): v for k, v in r["sync"]["foot"].items()})
+        if t is not None:
+            rt_idx.append(i)
+            rt_items.append(t)
+    pr_rt = vlib.build_props("Routing")
+    rep.proof(pr_rt)
+    bad_rt, amb_rt, info_rt = routing.check("C01", "route", rt_items)
+    amb_set = set(rt_idx[k] for k in amb_rt)
+    rep.add("routing_model", {**info_rt, "cases": len(rt_items), "disagreements": len(bad_rt), "runs_with_ambiguous_lookup": len(amb_set)})
     # T2 gated
     gated_idx, gated_terms = [], []
     for i, r in enumerate(recs):
@@ -222,6 +236,12 @@ def run(rep: vlib.Reporter, tier: str, seed: int) -> None:
         rep.finding(vkey, what, replay)
         return True
 
+    for k in bad_rt[:5]:
+        i = rt_idx[k]
+        rep.finding(f"route:{json.dumps(recs[i]['spec'], sort_keys=True)}",
+                    "SYNC: the objects the steps worked on (observed footprints) are not the ones Model/Routing.v computes from the "
+                    "plan and the begin order", {"kind": "sync", **recs[i]})
+        found = True
     for i in bad_wf[:5]:
         rep.finding(f"wf:{json.dumps(recs[i]['spec'], sort_keys=True)}",
                     "exported plan violates well-formedness (duplicate/empty produced sets, dangling or cyclic requirement) or "
